@@ -86,6 +86,12 @@ f('C16', 'torsion-scalar-branch-uses-acceleration', 'Curve.torsion with scalar i
 f('C16', 'rational-curve-one-element-list-derivative-squeezed', 'rational Curve.derivative([t], d=2|3) squeezes a one-element list to shape (dim,): torsion/binormal/normal on [t] give garbage or IndexError', True, {'call': 'rational cubic .torsion([0.3])'})
 f('C16', 'integrate-periodic-collapse-single-fold', 'BSplineBasis.integrate folds periodic images only once: wrong integrals (and centre) when num_functions < periodic+1', True, {'call': 'BSplineBasis(3,[-2,-1,0,1,2,3],1).integrate(0,1)'})
 
+f('C12', 'periodic-rounded-ghost-knots-out-of-range', 'make_splines_identical on a periodic curve with non-dyadic knot placement: after reparam/lower_periodic the end is 1+8e-15 and continuity() raises ValueError (out of range)', False, {'call': 'kn=[0.1*t+7.0 for t in [-.25,0,.125,.25,.75,1,1.125]]; make_splines_identical(Curve(BSplineBasis(2,kn,0),4 cps), Curve())'})
+f('C12', 'knots-straddling-tolerance-window', 'two knots of one object more than tol apart but both within the tolerance window of one knot of the other: no insertion, knot vectors end up different', False, {'call': 'd=2**-34; knots [0,0,0,.5,1,1,1] vs [0,0,0,.5-d,.5+d,1,1,1]'})
+f('C12', 'periodic-small-basis-geometry', 'make_splines_identical with a periodic basis of n < p+k functions: wrong map/domain or ValueError (periodic insert_knot defect, see C04)', False, {'call': 'BSplineBasis(2,[-1,0,1,2],0) curve against an open partner'})
+f('C12', 'periodic-insert-small-basis', 'make_splines_identical lowering the periodicity of a small periodic basis (n < p+k): wrong geometry (see C08)', False, {'call': 'small periodic partner'})
+f('C12', 'order1-direction-greville-zerodivision', 'make_splines_identical on objects with an order-1 direction and differing orders elsewhere raises ZeroDivisionError (see C05)', False, {'call': 'surface with an order-1 direction'})
+
 FIXED_COMMITS = {('C02', 'curve-evaluate-rejects-tensor-keyword'): '3ae9973', ('C03', 'rational-surface-d-not-tuple-returns-zeros'): 'cd5762c', ('C03', 'rational-derivative-order-zero-returns-zero'): '9f6e350', ('C03', 'rational-closed-form-ignores-above-list'): 'ea90458+cd5762c', ('C03', 'rational-left-limit-at-discontinuity'): '9f6e350+ea90458', ('C05', 'curve-raise-order-zero-returns-none'): '6ca09d8', ('C05', 'curve-dimension1-controlpoints-flattened'): '2d51429', ('C06', 'reverse-periodic-flip-only'): '4fe14f6', ('C06', 'swap-curve-returns-none'): '4f754a8', ('C09', 'infix-truediv-undefined'): '6773409', ('C11', 'extrude-mutates-operand'): 'c412e04', ('C11', 'section-point-view'): 'bb6c762', ('C11', 'swap-curve-returns-none'): '4f754a8', ('C11', 'curve-raise-order-0-returns-none'): '6ca09d8', ('C11', 'coons-patch-reverses-operands'): '9b346de', ('C13', 'three-point-arc-wrong-end'): 'b23deeb', ('C13', 'three-point-arc-nan-half-turn'): 'b0aae77', ('C13', 'arc-2pi-ignores-xaxis'): 'cf8223f', ('C13', 'cylinder-height-scaled-by-axis-norm'): '1445103', ('C14', 'manipulate-getargspec'): 'e2f7e0b', ('C14', 'lsq-flat-layout-reshape'): '3534aae', ('C14', 'volume-loft-two-sections'): 'f8de1df', ('C16', 'torsion-scalar-branch-uses-acceleration'): '274e74a', ('C16', 'rational-curve-one-element-list-derivative-squeezed'): 'ea90458', ('C16', 'integrate-periodic-collapse-single-fold'): 'fc5b45b', ('C17', 'nodeview-section-wrong-frame'): '8e83d07', ('C19', 'stl-2d-surface-resize'): '932700c', ('C19', 'g2-reversed-periodic-primitive'): '4fe14f6', ('C20', 'state-not-restored-on-exception'): 'cc29465', ('C20', 'g2-bounded-surface-writes-state'): '18d24da', ('C20', 'splinemodel-vertex-tolerance-not-from-state'): '580c3fa'}
 FIXED = []
 if __name__ == '__main__':
